@@ -640,6 +640,8 @@ pub fn dump(what: &str) {
         }
         "c19" => crate::c19::dump_tables(),
         "c20" => crate::c20::dump_tables(),
+        "zesc" => crate::c04::dump_tables(),
+        "c06" => crate::c06::dump_tables(),
         _ => {
             eprintln!("unknown dump {what}");
             std::process::exit(2);
